@@ -76,6 +76,11 @@ var runCounter int
 func init() {
 	logrus.SetOutput(io.Discard)
 	logrus.SetLevel(logrus.PanicLevel)
+	if os.Getenv("LSSIM_LOGRUS") != "" {
+		// diagnosis only: the system's own log on stderr
+		logrus.SetOutput(os.Stderr)
+		logrus.SetLevel(logrus.TraceLevel)
+	}
 }
 
 // scratchRoot is where LMDB directories of runs live.
